@@ -199,8 +199,7 @@ variable {Out : Type}
     `validate_time_x(x, time, n_features=self.n_input_features, cast_scalar=True)`; a refusal of the
     merge is the refusal of the call, and otherwise the family routine of the method is applied to
     exactly the merged matrix (`routineVal`, spelled out per method below). -/
-theorem all_methods_merge (P : Family τ Out) (m : Meth) (fl : Flags) (x : XArg τ) (tp : TimePass τ)
-    (hreq : m.timeRequired = true → tp.isAbsent = false) :
+theorem all_methods_merge (P : Family τ Out) (m : Meth) (fl : Flags) (x : XArg τ) (tp : TimePass τ) :
     call P m fl x tp .absent =
       match validateTimeX x tp.value (some P.nFeatures) true with
       | .err e => .err e
@@ -209,9 +208,7 @@ theorem all_methods_merge (P : Family τ Out) (m : Meth) (fl : Flags) (x : XArg 
         | some e => .err e
         | none => .ok (.single (routineVal P m fl M)) := by
   have hc : (m.timeRequired && tp.isAbsent) = false := by
-    cases hm : m.timeRequired
-    · rfl
-    · simp [hreq hm]
+    simp [Meth.timeRequired]
   simp only [call, hc, Bool.false_eq_true, if_false, body, bodyErr?, validateTimeX, bodyVal]
   cases h1 : xtErr? x tp.value.shape (some P.nFeatures) true with
   | some e => simp [TOutcome.map]
@@ -259,8 +256,19 @@ theorem method_forms_agree (P : Family τ Out) (m : Meth) (fl : Flags) (n f : Na
   have e1 := (merge_forms_agree n f rows ts t h).1
   have e2 := (merge_forms_agree n f rows ts t h).2
   constructor <;>
-  · rw [all_methods_merge P m fl _ _ (by intro _; rfl), all_methods_merge P m fl _ _ (by intro _; rfl)]
+  · rw [all_methods_merge P m fl _ _, all_methods_merge P m fl _ _]
     simp only [TimePass.value, hP, e1, e2]
+
+omit [IntCast τ] in
+/-- **time_default_is_none** (repair of finding H3-C2).  For each of the eight methods — the four
+    derivative methods included, which used to raise `TypeError: missing 1 required positional
+    argument: 'time'` — leaving `time` out is the call with `time=None`, by position or by keyword,
+    with or without `multi_time`; so `p.gradient(Xt)` reads the time from the last column of `Xt` and,
+    by `method_forms_agree`, equals every other way of giving the same times. -/
+theorem time_default_is_none [IntCast τ] (P : Family τ Out) (m : Meth) (fl : Flags) (x : XArg τ) (mt : MultiArg τ) :
+    call P m fl x .absent mt = call P m fl x (.positional .none) mt
+    ∧ call P m fl x .absent mt = call P m fl x (.keyword .none) mt := by
+  cases mt <;> simp [call, Meth.timeRequired, TimePass.value, TimePass.isAbsent]
 
 /-! ### multi_time -/
 
